@@ -95,6 +95,7 @@ func cmdCheck(args []string) {
 	}
 	t0 := time.Now()
 	w := mustWorld(*repo, filepath.Join(*verif, "specs"))
+	w.onlyProp = cfg.ID
 	// per-query limits: generous, because a limit only matters for the few slow queries and a loaded machine must not
 	// turn a proof into an alarm
 	timeout := 40
@@ -276,6 +277,44 @@ func cmdCheck(args []string) {
 	lemmaFn := &FnResult{Name: "lemmas"}
 	for i := range lemmaRes {
 		items = append(items, item{lemmaFn, &lemmaRes[i]})
+	}
+
+	// ---- second chance for obligations that ran out of time (never for refuted ones): a loaded machine must not turn a
+	// proof into an alarm. Re-solved a few at a time, with three times the limit, after everything else has finished.
+	{
+		var retry []item
+		for _, it := range items {
+			if it.o.Status != "unsat" && it.o.Status != "sat" && it.fn.ctx != nil && it.o.Kind != "lemma" {
+				retry = append(retry, it)
+			}
+		}
+		if len(retry) > 0 && len(retry) <= 24 {
+			sem := make(chan struct{}, 3)
+			var wg sync.WaitGroup
+			for _, it := range retry {
+				it := it
+				wg.Add(1)
+				sem <- struct{}{}
+				go func() {
+					defer wg.Done()
+					defer func() { <-sem }()
+					r2 := sv.solveOne(it.fn.ctx, it.o.Obl, timeout*3, true)
+					if r2.Status == "unsat" || r2.Status == "sat" {
+						r2.Output = "second attempt with " + fmt.Sprint(timeout*3) + "s: " + r2.Output
+						r2.Ms += it.o.Ms
+						*it.o = r2
+					}
+				}()
+			}
+			wg.Wait()
+			for _, it := range retry {
+				pf := perFn[it.fn.Name]
+				if it.o.Status == "unsat" {
+					pf[1]++
+					perFn[it.fn.Name] = pf
+				}
+			}
+		}
 	}
 
 	// ---- vacuity guards ----
@@ -460,6 +499,13 @@ func cmdCheck(args []string) {
 	var unverified []string
 	hk, ht := 0, 0
 	nContract := 0
+	skippedTotal := 0
+	for _, nm := range names {
+		skippedTotal += results[nm].Skipped
+	}
+	if skippedTotal > 0 {
+		assumptions[fmt.Sprintf("%d contract clauses of the functions above are tagged for other properties only: here they are hypotheses (assumed after their program point); each is an obligation of the check of every property it is tagged with", skippedTotal)] = true
+	}
 	for _, nm := range names {
 		r := results[nm]
 		e := map[string]interface{}{"function": nm}
